@@ -230,6 +230,96 @@ CLAIMED = {
         technique="Coq finite-state exploration with proved soundness (vm_compute) + rank/termination lemma + differential, watchdog and trace-inclusion correspondence",
         design_ref="DESIGN.md 5/C14",
     ),
+    "C06": dict(
+        text="Theorems over the engine model and a hand transcription of the bundled JSON Schema (schema_valid): for every "
+             "schema-valid policy or policy set, every request whose context._rebac is an object or null, both type modes, any "
+             "role-resolver answer, relationship oracle and obligation checker, no exception escapes evaluation (c06_total); a "
+             "schema-valid condition tree never raises anything but the sanctioned type mismatch (induction over the tree, all "
+             "19 operators); every rule has an outcome - applies or not applicable with a reason - so ill-typed and out-of-range "
+             "operands make exactly that rule not apply; the environment built from a JSON request is well formed; the decision "
+             "is well formed (effect permit/deny, allowed iff permit) and its reason is one of the eight documented reasons; "
+             "schema validity discharges the structural hypothesis of C01/C11. Termination is structural (no fuel). The check "
+             "(1) compares schema_valid with the real jsonschema on every generated and mutated document (the theorem's "
+             "hypothesis), (2) judges the property directly: every accepted document - also after a JSON or YAML round trip "
+             "through the loaders - is evaluated through Guard lax+strict against hostile JSON requests and must return a "
+             "well-formed decision without raising, (3) compares the Decision with the model where the model has an answer.",
+        note="Trusted: Coq kernel; model and schema transcription tied to the code by differential execution only; jsonschema 4.x "
+             "(private install) as the oracle for validity; extraction; harness. Python's recursion limit is outside the model "
+             "(jsonschema gives up at 150-200 levels of nesting, evaluation only beyond ~990; generated up to 120). Model results "
+             "outside its domain (exotic str(), ISO shapes outside the modelled grammar) are not exceptions in the theorem; the "
+             "harness observes those cases directly on the implementation.",
+        technique="Coq proof (no-raise invariant by induction over condition trees, rules, sets and the compiled path; schema transcription) + jsonschema-validated grammar/mutation generation + direct totality judgement + correspondence",
+        design_ref="DESIGN.md 5/C06",
+    ),
+    "C09": dict(
+        text="Inductive invariant over a Gallina model of Guard.set_policy/_install_policy/_current_policy_version/"
+             "_evaluate_core_async/_decide_async as of commit 40ecad2 (fields published under _state_lock with _policy_version; "
+             "evaluation stores only if the version is unchanged), for any number of threads running any sequence of "
+             "set_policy/evaluate calls, every interleaving of their atomic steps and cache evictions, unbounded: every cache "
+             "entry carries the decision of the policy its tag names; every evaluation returns one policy's complete decision, "
+             "that policy current at some moment during it; once all replacement calls have returned, evaluations started "
+             "afterwards return the last published policy's decision (also in the UpRet form for non-overlapping replacements); "
+             "no entry with tag and decision from different policies. The pre-fix protocol is refuted by a vm_compute schedule "
+             "(F7, and A->B->A). Tied to /repo/src every run by replaying every model-enumerated interleaving of the located "
+             "shared-state accesses on a real Guard under a settrace scheduler (U||E, HotReloader||E, U||E;E exhaustive; "
+             "A->B->A||E exhaustive in thorough; U||E||E sampled), lock probes, and implementation-only searches (all access "
+             "interleavings the implementation admits; line-level schedules up to 2/3 pre-emptions; seeded random), with the "
+             "property judged on the implementation's own output.",
+        note="partial: CPython atomicity of single attribute loads/stores and of individual dict/OrderedDict/cache operations under "
+             "the GIL is assumed (free-threaded builds out of scope); the asyncio.to_thread hand-off is one step; tag_of injective "
+             "(SHA3 collision-free) and compiled = interpreted decision (C03) are hypotheses; custom caches are assumed to satisfy "
+             "get/set/clear and be thread-safe; the etag=None branch and compile-raises-for-one-policy are modelled but not "
+             "exercised on the implementation; U||E||E is sampled, not exhaustive.",
+        technique="Coq proof (inductive invariant over an interleaving semantics, rely/guarantee-style frame lemma, ghost event log; vm_compute refutation of the old protocol) + model/implementation schedule correspondence (deterministic settrace scheduler) + bounded schedule search on the implementation",
+        design_ref="DESIGN.md 5/C09",
+    ),
+    "C10": dict(
+        text="Theorems over a Gallina model of HotReloader (priming, check as a small-step program whose atomic steps are the "
+             "lock-delimited blocks and the source calls, _register_error in exact Q arithmetic) and of the custom, file, HTTP and "
+             "S3 sources as state machines. For every source and every interleaving of any number of plain or forced checks with "
+             "arbitrary world changes: the active policy is the initial one or a loaded document, one set_policy happens per check "
+             "returning True, and only a check's last step touches the guard. For sequential histories the policy is the most "
+             "recently loaded document. A failing or unchanged check returns False and is inert. The window is at most "
+             "now+max(0.2, backoff_max(1+jitter_ratio)), per check and over all interleavings, with doubling, clamping and reset; "
+             "suppressed checks are no-ops; forced checks ignore the window. Convergence is proved for every honest source "
+             "(instances: custom, file, S3, HTTP without ETags) from construction through any interleaving satisfying a stated "
+             "side condition (no content change between etag() and load() of a check holding a content tag; vacuous for "
+             "version-tagged sources), including a change inside the first of the two final checks and the initial_load proviso. "
+             "HTTP with ETags converges outside F9's class. The unconditional convergence clause is refuted for the code as it is "
+             "by two machine-checked histories (c10_refuted_http_etag = F9, c10_refuted_aba = F20); the check prints those as "
+             "KNOWN-FINDING and reports any other non-convergence.",
+        note="Partial: the polling thread's loop is modelled only as 'calls check repeatedly'; network and S3 are fakes; each "
+             "etag()/load() call is atomic with respect to the world; faults are Exception subclasses; every write gets a fresh "
+             "mtime. Overlapping checks use interleaving semantics in the model; on the implementation all 70 two-check "
+             "interleavings are forced by gates, plus free-running threads judged on safety only. Floats: dyadic inputs, tolerance "
+             "1e-9 on suppressed_until and backoff. Trusted: Coq kernel, the hand-written model tied to the code by differential "
+             "execution, extraction plus ocamlopt, and the harness.",
+        technique="Coq proof (invariants over a small-step interleaving semantics, big-step characterisation, refinement of source state machines to an honesty record, lra/nra over Q, vm_compute counterexamples) + model/implementation correspondence on enumerated and random scripted histories, including forced thread interleavings",
+        design_ref="DESIGN.md 5/C10",
+    ),
+    "C19": dict(
+        text="Theorems over the Gallina model of _set_by_path/apply_obligations/DecisionLogger.log (all JSON environments, paths, "
+             "specs, flags, rates, draws and bounds; no size or depth bound): the placeholder is at every well-formed configured "
+             "path after redaction and positions beside the path are unchanged (frame); a secret occurring only at or below "
+             "well-formed configured paths occurs nowhere in the emitted record, whichever of full env / truncation marker / "
+             "failure marker is emitted and whether or not redaction is in place; with in_place=false the caller's env is "
+             "unchanged, in place it keeps its top-level bindings; an explicit list (even empty) beats the default set, which "
+             "applies only when opted in; rate <= 0 drops for every draw, rate >= 1 emits for every draw in [0,1), smart sampling "
+             "with default rates emits every deny and permit-with-obligations (and the same two laws for any category rate); with "
+             "a bound the env is emitted in full iff its serialised UTF-8 size is <= the bound, else the marker with that size. "
+             "The correspondence run (extracted model vs /repo/src: int(), _set_by_path, apply_obligations, DecisionLogger.log "
+             "with capturing logger and scripted random.random) compares the exact emitted message, draws consumed, fallback "
+             "trace and the caller's env after the call on complete small families and seeded random cases, judging each clause "
+             "on the implementation's output.",
+        note="Partial/trusted: the UTF-8 size of json.dumps(redacted env) and the JSON/str renderings are Python's (the model yields "
+             "the record as a value; the harness renders it with the same functions and compares strings). Env is a JSON tree (no "
+             "shared objects/cycles); Python's recursion limit is outside the model (depth <= ~400; deeper envs checked "
+             "property-only). Mask placeholders that are lists/dicts and Unicode digits in index text are out of domain (counted, "
+             "skipped). A covering path must have non-negative indices (a negative index is resolved against the list as it is at "
+             "that moment).",
+        technique="Coq proof (induction over path segments with a covering-positions invariant; fold over the sequence of writes; exact dyadic float order for the sampling gate; explicit aliasing state for in-place redaction) + exhaustive-in-the-small and random model/implementation correspondence",
+        design_ref="DESIGN.md 5/C19",
+    ),
 }
 
 PENDING_REASON = ("check not built yet at this commit (work in progress; the design in DESIGN.md section 5 covers it and "
